@@ -19,7 +19,7 @@ from ..spec import Spec, EXPLOIT, PRIVESC, SUB_SCAN
 from ..verdict import Acc
 from .gen import forced_seed
 
-SIZES = {"quick": dict(n_family=140, n_synth=40, cap=2500),
+SIZES = {"quick": dict(n_family=110, n_synth=30, cap=2000),
          "thorough": dict(n_family=5000, n_synth=1500, cap=200000)}
 NEG = float("-inf")
 
@@ -347,6 +347,16 @@ def hop_family_case(acc, rng):
     hosts it compromised."""
     nsub = rng.randint(4, 9)
     N = nsub + 1
+    sizes = [1 + (rng.random() < 0.15) for _ in range(nsub)]
+    addrs = [(s + 1, h) for s in range(nsub) for h in range(sizes[s])]
+    sens = rng.sample(addrs, min(len(addrs), rng.randint(2, 5)))
+    # several topologies over the same subnet sizes and sensitive addresses
+    # (anything remembered about one of them must not leak into the next)
+    for _variant in range(3):
+        _hop_family_one(acc, rng, nsub, N, sizes, addrs, sens)
+
+
+def _hop_family_one(acc, rng, nsub, N, sizes, addrs, sens):
     topo = [[1 if i == j else 0 for j in range(N)] for i in range(N)]
     for b in range(2, N):
         a = rng.randint(1, b - 1) if rng.random() < 0.8 else max(1, b - 1)
@@ -358,9 +368,6 @@ def hop_family_case(acc, rng):
     if rng.random() < 0.2:
         p = rng.randint(2, nsub)
         topo[0][p] = topo[p][0] = 1
-    sizes = [1 + (rng.random() < 0.15) for _ in range(nsub)]
-    addrs = [(s + 1, h) for s in range(nsub) for h in range(sizes[s])]
-    sens = rng.sample(addrs, min(len(addrs), rng.randint(2, 5)))
     hosts = {a: dict(os="linux", services=["ssh"], processes=["p"],
                      value=0.0, discovery_value=0.0, firewall={})
              for a in addrs}
@@ -444,7 +451,7 @@ def run(prop, tier, seed, shard, nshards):
     cases += [("synth", i) for i in range(z["n_synth"])]
     cases += [("shipped", n) for n in corpus.SHIPPED]
     cases += [("edge", i) for i in range(len(EDGES))]
-    cases += [("hopfam", i) for i in range(z["n_family"] * 3)]
+    cases += [("hopfam", i) for i in range(z["n_family"])]
     for ci in corpus.shard_range(len(cases), shard, nshards):
         ctype, cid = cases[ci]
         rng = corpus.case_rng(seed, prop, ctype, cid)
